@@ -10,14 +10,16 @@
 #include "zoo.h"
 using namespace zoo;
 
-struct Ev { std::string tag; long a, b; Peek p; };
+struct Ev { std::string tag; long a, b; Peek p; KryRep kr; bool has_kr = false; };
 struct Rec : Spectra::verif::Observer
 {
-    std::vector<Ev> evs; IRunner* run = nullptr;
+    std::vector<Ev> evs; IRunner* run = nullptr; bool want_kry = false, herm = false;
     void event(const char* tag, const void*, long a, long b) override
     {
         Ev e; e.tag = tag; e.a = a; e.b = b;
         if (run) run->peek(e.p);
+        if (run && want_kry && (e.tag == "arnoldi.init" || e.tag == "arnoldi.factorize_from" || e.tag == "lanczos.factorize_from" || e.tag == "arnoldi.compress_V"))
+        { run->kry(e.kr, herm); e.has_kr = true; }
         evs.push_back(e);
     }
 };
@@ -88,7 +90,7 @@ int main()
                                      m.count("sigmai") ? std::stod(m["sigmai"]) : 0.0);
             if (is_general(cls)) make_general(p, m.count("gfam") ? m["gfam"] : "grandom", mseed, scale);
             std::unique_ptr<IRunner> r = make_runner(cls, p, nev, ncv);
-            Rec rec; rec.run = r.get(); Spectra::verif::observer() = &rec;
+            Rec rec; rec.run = r.get(); rec.want_kry = m.count("kry") > 0; rec.herm = !is_general(cls); Spectra::verif::observer() = &rec;
             if (m.count("fault")) r->ctl.fault_at = std::stol(m["fault"]);
             if (m.count("fault2")) r->ctl.fault_at2 = std::stol(m["fault2"]);
             if (m.count("faultB")) r->ctlB.fault_at = std::stol(m["faultB"]);
@@ -159,12 +161,14 @@ int main()
                     CMat BX(ob.evecs.rows(), k);
                     for (long j = 0; j < k; j++)
                     {
-                        CVec x = ob.evecs.col(j), Ax, Bx; r->pencil(x, Ax, Bx); BX.col(j) = Bx;
+                        CVec x = ob.evecs.col(j), Ax, Bx; r->pencil(x, Ax, Bx); BX.col(j) = r->ipvec(x);
                         double rn = (Ax - ob.evals[j] * Bx).norm() / std::max(x.norm(), 1e-300);
                         o << (j ? "," : "") << rn;
                     }
                     o << "],\"xnorm\":[";
                     for (long j = 0; j < k; j++) o << (j ? "," : "") << ob.evecs.col(j).norm();
+                    o << "],\"bxnorm\":[";
+                    for (long j = 0; j < k; j++) { CVec x = ob.evecs.col(j), Ax, Bx; r->pencil(x, Ax, Bx); o << (j ? "," : "") << Bx.norm(); }
                     CMat G = ob.evecs.adjoint() * BX;
                     double orth = (G - CMat::Identity(k, k)).cwiseAbs().maxCoeff();
                     double maxoff = 0; for (long i = 0; i < k; i++) for (long j = 0; j < k; j++) if (i != j) maxoff = std::max(maxoff, std::abs(G(i, j)));
@@ -191,11 +195,20 @@ int main()
                     const Ev& e = rec.evs[i];
                     o << (i ? "," : "") << "[" << jstr(e.tag) << "," << e.a << "," << e.b << "," << e.p.nmatop << "," << e.p.k << "," << jstr(e.p.flags);
                     if (e.tag == "eigs.adjust") o << "," << jstr(e.p.small) << "," << jstr(e.p.pairs);
+                    if (e.has_kr) o << ",{\"k\":" << e.kr.k << ",\"m\":" << e.kr.m << ",\"scale\":" << e.kr.scale << ",\"rel\":" << e.kr.rel << ",\"orth\":" << e.kr.orth
+                                    << ",\"fperp\":" << e.kr.fperp << ",\"shape\":" << e.kr.shape << ",\"sym\":" << e.kr.sym << ",\"beta\":" << e.kr.beta_err << ",\"finite\":" << (e.kr.finite ? "true" : "false") << "}";
                     o << "]";
                 }
                 o << "]}";
             }
             o << "]";
+            if (m.count("ref"))
+            {
+                std::vector<cd> rf = r->reference();
+                o << ",\"ref\":[";
+                for (size_t i = 0; i < rf.size(); i++) o << (i ? "," : "") << "[" << rf[i].real() << "," << rf[i].imag() << "]";
+                o << "]";
+            }
             if (m.count("probe"))
             {
                 Vec p1 = r->probe();
